@@ -117,6 +117,8 @@ def mk(kind, *args):
     if base is not None and base.kind == "map":
       elt, bv, src = base.args
       return rebuild(elt.deep_subst(bv, a[1]))   # map(elt(bv), bv, src)[i] = elt(i)
+    if base is not None and base.kind == "upd" and len(base.args) == 3 and isinstance(a[1], Poly) and base.args[1] == a[1]:
+      return base.args[2]                         # upd(b, k, v)[k] = v (read-back of the key just written)
   return Poly.atom(Atom(kind, *a))
 
 
